@@ -519,9 +519,50 @@ class Walker:
                 if m is not None and any(dotted(d) == 'staticmethod'
                                          for d in m.node.decorator_list):
                     r = (m, c[1], None)
+                elif m is not None and any(dotted(d) == 'classmethod'
+                                           for d in m.node.decorator_list) \
+                        and self._internal_class(c[1]):
+                    # Record.make(...): the class is bound to `cls`
+                    return m, c[1], SymVal(ast.Name(c[1].name, ast.Load()))
+        if r is None and isinstance(call.func, ast.Attribute) and isinstance(
+                call.func.value, ast.Name) and call.func.value.id == 'self' \
+                and st.frame.cls is not None and 'self' in st.frame.env \
+                and self._internal_class(st.frame.cls) \
+                and call.func.attr not in skip:
+            # self.other() inside a record's method that was itself inlined
+            # on some object
+            m = self.p.resolve_method(st.frame.cls, call.func.attr)
+            if m is not None and m.kind == 'method' and not (
+                    m.name.startswith('__') and m.name.endswith('__')):
+                return m, st.frame.cls, st.frame.env['self']
+        if r is None and isinstance(call.func, ast.Attribute) and not (
+                isinstance(call.func.value, ast.Name)
+                and call.func.value.id in ('self', 'cls')) \
+                and not call.func.attr.startswith('_'):
+            # obj.method(...) where `method` is defined by exactly one class
+            # of the module and that class is internal (private name, or a
+            # plain record): a helper method on a record
+            mod = st.frame.func.module
+            owners = [c for c in mod.classes.values()
+                      if call.func.attr in c.methods]
+            if len(owners) == 1 and self._internal_class(owners[0]) \
+                    and call.func.attr not in skip:
+                m = owners[0].methods[call.func.attr]
+                if m.kind == 'method' and not any(
+                        dotted(d) in ('staticmethod', 'classmethod')
+                        for d in m.node.decorator_list):
+                    return m, owners[0], self.canon(st, call.func.value)
+        if r is not None and isinstance(call.func, ast.Attribute) \
+                and isinstance(call.func.value, ast.Name) \
+                and call.func.value.id == 'self' and st.frame.cls is not None \
+                and self._internal_class(st.frame.cls) \
+                and not r[0].name.startswith('__') \
+                and r[0].name not in skip:
+            return r            # self.method() inside a record's own method
         if r is None and isinstance(call.func, ast.Attribute) \
                 and call.func.attr.startswith('_') \
-                and not call.func.attr.startswith('__'):
+                and not (call.func.attr.startswith('__')
+                         and call.func.attr.endswith('__')):
             # obj._private(...): a private method defined by exactly one
             # class of this module (e.g. another instance of the same class)
             mod = st.frame.func.module
@@ -535,10 +576,23 @@ class Walker:
         if r is None:
             return None
         name = r[0].name
-        if not name.startswith('_') or name.startswith('__') \
+        if not name.startswith('_') or (name.startswith('__')
+                                        and name.endswith('__')) \
                 or name in skip:
             return None
         return r
+
+    def _internal_class(self, ci):
+        """A private class, or a plain record (dataclass / NamedTuple /
+        exception carrying fields): its small methods are helpers."""
+        if ci.name.startswith('_'):
+            return True
+        decs = [(dotted(d.func if isinstance(d, ast.Call) else d) or '')
+                .split('.')[-1] for d in ci.decorators]
+        if 'dataclass' in decs:
+            return True
+        return any((e or '').split('.')[-1] in ('NamedTuple', 'Exception')
+                   for e in ci.ext_bases)
 
     def default_resolve(self, st, call):
         f = call.func
